@@ -329,4 +329,106 @@ theorem sum_map_const {α : Type} (l : List α) (f : α → ℝ) (c : ℝ) (h : 
     simp only [List.length_cons, Nat.cast_add, Nat.cast_one]
     ring
 
+/-! ### batch-level bound on the amplitude-loss residual -/
+theorem lossTerm_l2amp_le {x : ℝ} (hx : 0 ≤ x) (m : ℝ) :
+    lossTerm .l2Amplitude x (Real.sqrt x) m ≤ m ^ 2 * (1 / 10 ^ 9) := by
+  have heps : (epsLoss : ℝ) = 1 / 10 ^ 9 := by simp [epsLoss]
+  have hres := sqrt_residual_sq_le hx (show (0 : ℝ) ≤ 1 / 10 ^ 9 by positivity)
+  have h2 : lossTerm .l2Amplitude x (Real.sqrt x) m = (m * (Real.sqrt (x + 1 / 10 ^ 9) - Real.sqrt x)) ^ 2 := by
+    simp only [lossTerm, lossPred, LossType.isAmplitude, LossType.isL1, heps, Num.sq, NumReal.sub_eq, NumReal.mul_eq,
+      NumReal.add_eq, NumReal.sqrt_eq, NumReal.abs_eq, if_true, Bool.false_eq_true, if_false, abs_mul_abs_self]
+    ring
+  rw [h2, mul_pow]
+  exact mul_le_mul_of_nonneg_left hres (sq_nonneg m)
+
+theorem sum_map_le_const {α : Type} (l : List α) (f : α → ℝ) (c : ℝ) (h : ∀ a ∈ l, f a ≤ c) :
+    (l.map f).sum ≤ l.length * c := by
+  induction l with
+  | nil => simp
+  | cons a l ih =>
+    rw [List.map_cons, List.sum_cons]
+    have h1 := h a List.mem_cons_self
+    have h2 := ih (fun b hb => h b (List.mem_cons_of_mem _ hb))
+    simp only [List.length_cons, Nat.cast_add, Nat.cast_one]
+    linarith
+
+/-- one pattern: the l2-amplitude loss terms against the amplitudes `√I` of the same (non-negative)
+intensities sum to at most `1e-9 · Σ mask²` -/
+theorem lossTermsImg_l2amp_le {I : RImg ℝ} (hI : Rect nr nc I) (hpos : NonNeg I) (m : ℕ → ℕ → ℝ) :
+    lossTermsImg .l2Amplitude I (rawAmplitude I) (build nr nc m)
+      ≤ (1 / 10 ^ 9) * ∑ i ∈ range nr, ∑ j ∈ range nc, (m i j) ^ 2 := by
+  obtain ⟨p, rfl⟩ := hI.exists_build
+  have hp := nonNeg_build hpos
+  have hraw : rawAmplitude (build nr nc p) = build nr nc (fun i j => max0 (Num.sqrt (max0 (p i j)))) := by
+    unfold rawAmplitude; rw [build_map]
+  rw [hraw, lossTermsImg_build, mul_sum]
+  apply sum_le_sum
+  intro i hi
+  rw [mul_sum]
+  apply sum_le_sum
+  intro j hj
+  have h0 := hp i (mem_range.1 hi) j (mem_range.1 hj)
+  rw [max0_of_nonneg h0, NumReal.sqrt_eq, max0_of_nonneg (Real.sqrt_nonneg _)]
+  have := lossTerm_l2amp_le h0 (m i j)
+  linarith
+
+/-- **batch-level residual bound**: the l2-amplitude loss of a non-empty batch of non-negative patterns
+against their own amplitudes is at most `num_gpts · 1e-9 · Σ mask² / mean_intensity` — independent of the
+batch size (the batch-fraction scaling cancels the number of patterns) -/
+theorem lossBatch_l2amp_le (Is : List (RImg ℝ)) (hI : ∀ I ∈ Is, Rect nr nc I ∧ NonNeg I) (hne : Is ≠ [])
+    (m : ℕ → ℕ → ℝ) {n : ℕ} (hn : 0 < n) {meanI : ℝ} (hm : 0 < meanI) :
+    lossBatch .l2Amplitude Is (Is.map rawAmplitude) (build nr nc m) n meanI
+      ≤ (n : ℝ) * ((1 / 10 ^ 9) * ∑ i ∈ range nr, ∑ j ∈ range nc, (m i j) ^ 2) / meanI := by
+  unfold lossBatch
+  rw [List.zipWith_map_right, List.zipWith_self, numSum_eq]
+  simp only [NumReal.div_eq, NumReal.ofNat_eq]
+  set C := (1 / 10 ^ 9 : ℝ) * ∑ i ∈ range nr, ∑ j ∈ range nc, (m i j) ^ 2 with hC
+  have hsum := sum_map_le_const Is (fun I => lossTermsImg .l2Amplitude I (rawAmplitude I) (build nr nc m)) C
+    (fun I hIm => lossTermsImg_l2amp_le (hI I hIm).1 (hI I hIm).2 m)
+  have hlen : (0 : ℝ) < (Is.length : ℝ) := by
+    have : Is.length ≠ 0 := fun h => hne (List.length_eq_zero_iff.1 h)
+    exact_mod_cast Nat.pos_of_ne_zero this
+  have hn' : (0 : ℝ) < (n : ℝ) := by exact_mod_cast hn
+  apply div_le_div_of_nonneg_right _ hm.le
+  rw [div_le_iff₀ (div_pos hlen hn')]
+  calc (Is.map fun I => lossTermsImg .l2Amplitude I (rawAmplitude I) (build nr nc m)).sum
+      ≤ (Is.length : ℝ) * C := hsum
+    _ = (n : ℝ) * C * ((Is.length : ℝ) / (n : ℝ)) := by field_simp
+
+/-! ### general scan positions at rotation 0, no transposition -/
+theorem foldl_min_zero {α : Type} (f : α → ℝ) (l : List α) (h : ∀ p ∈ l, 0 ≤ f p) :
+    l.foldl (fun acc p => Num.min acc (f p)) (0 : ℝ) = 0 := by
+  induction l with
+  | nil => rfl
+  | cons a l ih =>
+    rw [List.foldl_cons, NumReal.min_eq, min_eq_left (h a List.mem_cons_self)]
+    exact ih (fun p hp => h p (List.mem_cons_of_mem _ hp))
+
+theorem scanPositionsGeneral_plain (g : Geometry) (hs1 : 0 ≤ g.stepR) (hs2 : 0 ≤ g.stepC) :
+    scanPositionsGeneral g.gr g.gc (g.stepR : ℝ) (g.stepC : ℝ) (g.sampR : ℝ) (g.sampC : ℝ)
+        ((g.padUsedR : ℕ) : ℝ) ((g.padUsedC : ℕ) : ℝ) 0 false
+      = (scanPositions g).map fun p => ((p.1 : ℝ), (p.2 : ℝ)) := by
+  unfold scanPositionsGeneral scanPositions
+  simp only [isZero_zero, if_true, Bool.false_eq_true, if_false, NumReal.zero_eq]
+  have hnn1 : ∀ p ∈ (List.range g.gr).flatMap (fun (i : ℕ) => (List.range g.gc).map fun (j : ℕ) =>
+      ((Num.ofNat i * (g.stepR : ℝ), Num.ofNat j * (g.stepC : ℝ)) : ℝ × ℝ)), 0 ≤ p.1 ∧ 0 ≤ p.2 := by
+    intro p hp
+    obtain ⟨i, _, hp⟩ := List.mem_flatMap.1 hp
+    obtain ⟨j, _, rfl⟩ := List.mem_map.1 hp
+    simp only [NumReal.ofNat_eq]
+    have h1 : (0 : ℝ) ≤ (g.stepR : ℝ) := by exact_mod_cast hs1
+    have h2 : (0 : ℝ) ≤ (g.stepC : ℝ) := by exact_mod_cast hs2
+    exact ⟨mul_nonneg (Nat.cast_nonneg _) h1, mul_nonneg (Nat.cast_nonneg _) h2⟩
+  rw [foldl_min_zero (fun p : ℝ × ℝ => p.1) _ (fun p hp => (hnn1 p hp).1),
+    foldl_min_zero (fun p : ℝ × ℝ => p.2) _ (fun p hp => (hnn1 p hp).2)]
+  rw [List.map_flatMap, List.map_flatMap]
+  apply List.flatMap_congr
+  intro i _
+  rw [List.map_map, List.map_map]
+  apply List.map_congr_left
+  intro j _
+  simp only [Function.comp, NumReal.ofNat_eq, NumReal.mul_eq, NumReal.div_eq, NumReal.add_eq, sub_zero]
+  push_cast
+  rfl
+
 end QuantemModel.Forward
